@@ -15,24 +15,6 @@ import MiniVecProof.Props.C12
 namespace MV.Props
 open MV MV.Gen MV.GM VM
 
-theorem keptFrom_sublist (f : Vec.Pred1) (k : Nat) (es : List Elem) : (keptFrom f k es).Sublist es := by
-  induction es generalizing k with
-  | nil => simp [keptFrom]
-  | cons e es ih =>
-    simp only [keptFrom]
-    split
-    · exact (ih (k + 1)).cons₂ e
-    · exact (ih (k + 1)).cons e
-
-theorem kept_rej_perm (f : Vec.Pred1) (k : Nat) (es : List Elem) : (keptFrom f k es ++ rejFrom f k es).Perm es := by
-  induction es generalizing k with
-  | nil => simp [keptFrom, rejFrom]
-  | cons e es ih =>
-    simp only [keptFrom, rejFrom]
-    split
-    · simpa using (ih (k + 1)).cons e
-    · exact (List.perm_middle).trans ((ih (k + 1)).cons e)
-
 /-- a consistent predicate gives `Vec::retain` = `filter` -/
 theorem keptFrom_filter (p : Elem → Bool) (k : Nat) (es : List Elem) : keptFrom (fun _ e => p e) k es = es.filter p := by
   induction es generalizing k with
